@@ -147,6 +147,12 @@ def run(ctx: Ctx) -> dict:
     env = ctx.frozen(banks=False)
     table = ctx.table(env)
     ops = wide_ops(ctx, table)
+    # plus inputs chosen by coverage: mutants of a sample of these calls that take a line transition of
+    # the package nothing before them took (every branch of the tree under test, however rarely entered)
+    import fuzz
+    simple = [o for o in ops if o["op"] != "consistency"]
+    rngf = random.Random(ctx.seed + 55)
+    ops += fuzz.corpus(ctx, rngf.sample(simple, min(len(simple), 1600)), 4000 if ctx.quick else 150000, "c05")
     events = calls.execute(ctx, ops, "wide")
     mism = calls.validate(ctx, "TraceCalls", events, env, "wide", per_shard=15000)
     calls.report(ctx, mism, CLAUSES, keyfn)
